@@ -59,8 +59,16 @@ const tornBase = 0x7ead0000
 func newList(elem int) listAPI {
 	switch elem {
 	case 1:
-		return &listOf[string]{l: listz.NewSync[string](), enc: func(v int) string { return "v" + strconv.Itoa(v) },
+		return &listOf[string]{l: listz.NewSync[string](), enc: func(v int) string {
+			if v == 0 {
+				return "" // value 0 stands for the zero value of the element type: an element like any other
+			}
+			return "v" + strconv.Itoa(v)
+		},
 			dec: func(s string) int {
+				if s == "" {
+					return 0
+				}
 				n, err := strconv.Atoi(strings.TrimPrefix(s, "v"))
 				if err != nil || !strings.HasPrefix(s, "v") {
 					return tornBase + len(s)
@@ -68,26 +76,47 @@ func newList(elem int) listAPI {
 				return n
 			}}
 	case 2:
-		return &listOf[triple]{l: listz.NewSync[triple](), enc: func(v int) triple { return triple{v, ^int64(v), uint64(v) * 3} },
+		return &listOf[triple]{l: listz.NewSync[triple](), enc: func(v int) triple {
+			if v == 0 {
+				return triple{}
+			}
+			return triple{v, ^int64(v), uint64(v) * 3}
+		},
 			dec: func(t triple) int {
+				if t == (triple{}) {
+					return 0
+				}
 				if t.B != ^int64(t.A) || t.C != uint64(t.A)*3 {
 					return tornBase + 1000 + t.A&0xff
 				}
 				return t.A
 			}}
 	case 3:
-		return &listOf[*int]{l: listz.NewSync[*int](), enc: func(v int) *int { return &v },
+		return &listOf[*int]{l: listz.NewSync[*int](), enc: func(v int) *int {
+			if v == 0 {
+				return nil
+			}
+			return &v
+		},
 			dec: func(p *int) int {
 				if p == nil {
-					return tornBase + 2000
+					return 0
 				}
 				return *p
 			}}
 	case 4:
-		return &listOf[any]{l: listz.NewSync[any](), enc: func(v int) any { return v },
+		return &listOf[any]{l: listz.NewSync[any](), enc: func(v int) any {
+			if v == 0 {
+				return nil
+			}
+			return v
+		},
 			dec: func(x any) int {
 				if n, ok := x.(int); ok {
 					return n
+				}
+				if x == nil {
+					return 0
 				}
 				return tornBase + 3000
 			}}
@@ -148,13 +177,18 @@ func gen(r *sim.Rng, tier string) *sim.Case {
 	total := 0
 	// swarm: op mix per case
 	wPush, wPop, wLen, wWait := r.Range(1, 6), r.Range(1, 6), r.Range(0, 3), r.Range(0, 2)
+	zeroPushed := false
 	for t := 0; t < nT; t++ {
 		n := r.Range(1, maxOps)
 		var prog []sim.Op
 		for i := 0; i < n; i++ {
 			switch r.Pick(wPush, wPop, wLen, wWait) {
 			case 0:
-				prog = append(prog, sim.Op{Op: "Push", V: (t+1)<<8 | (i + 1)})
+				v := (t+1)<<8 | (i + 1)
+				if !zeroPushed && r.Pct(4) {
+					v, zeroPushed = 0, true // the zero value of the element type is an element like any other
+				}
+				prog = append(prog, sim.Op{Op: "Push", V: v})
 			case 1:
 				prog = append(prog, sim.Op{Op: "Pop"})
 			case 2:
